@@ -8,7 +8,7 @@ from ..core import AnalysisError
 from ..src import arg_names, unparse
 
 LEVEL = "other"
-TECHNIQUE = "code-as-table extraction of refinement/union/adjacency patterns checked in exact arithmetic on the reference triangle; provenance typing of stores (guards, loops, reaching definitions); symbolic per-element interpretation of the vectorised geometry code against its definitions; edge-convention sibling lint"
+TECHNIQUE = "code-as-table extraction of refinement/union/adjacency patterns checked in exact arithmetic on the reference triangle; provenance typing of stores (guards, loops, reaching definitions); symbolic per-element interpretation of the vectorised geometry code against its definitions; edge-convention sibling lint; interval-style abstract interpretation of the generated domain-index blocks of union(), symbolic 2x2 interpretation of the shared-edge table, abstract execution of the barycentric vertex creation"
 LEVEL_TEXT = (
     "Decides the clauses whose truth is in the shape of the code: children of refine() and of the barycentric "
     "refinement are positively oriented and partition the parent (exact areas on the reference triangle; by affinity "
